@@ -10,6 +10,7 @@ CONSTANTS
   FineTime = FALSE
   SlowWrites = FALSE
   SlowRtx = "close"
+  IgnoreToo = FALSE
   FailAts = {0, 2}
   MaxDepth = 9
 CONSTRAINT DepthBound
